@@ -74,7 +74,7 @@ def binding_theorem():
     P = (lambda j: z3.Not(z3.Or(kind(j) == KINDS["KEYWORD_ONLY"], kind(j) == KINDS["VAR_KEYWORD"]))) if filtered else (lambda j: z3.BoolVal(True))
     # ---- facts, as functions producing instances ---------------------------------------------------------------
     sf = signature_facts(st, sg)
-    len_eq, names_q, dist_nm = sf[0], sf[1], sf[2]
+    len_eq, names_q, dist_nm = sf[0], sf[1], sf[3]  # sf[2]: names are not None
     N = lambda j: inst(names_q, j)  # nm[j] == name(ps[j])
     D = lambda j: inst(dist_nm, j)  # LIST_INDEX(nm, nm[j]) == j
     KINDOK = lambda j: z3.Implies(inr(j), z3.Or([kind(j) == kv for kv in KINDS.values()]))
